@@ -70,10 +70,14 @@ RespN(o) == {o.ndpq[k].intf : k \in DOMAIN o.ndpq}
 (* advertisement covering the interface: the announcer's decision ...       *)
 C13_AnswerIff(o) ==
   \A k \in DOMAIN o.q : (o.q[k].res = "none") <=> SpecHolds(ann, o.q[k].ip, o.q[k].intf)
-(* ... an ARP request to the node through arpResponder.processRequest ...   *)
+(* ... an ARP request through arpResponder.processRequest: answered iff the  *)
+(* frame is for this machine (Ethernet destination = node or broadcast --   *)
+(* whatever the target-hardware-address field of the packet says) and the   *)
+(* address is held and covered ...                                          *)
 C13_ArpAnswerIff(o) ==
-  \A k \in DOMAIN o.arpq : /\ (o.arpq[k].res = "reply") <=> SpecHolds(ann, o.arpq[k].ip, o.arpq[k].intf)
-                           /\ Replied(o.arpq[k].res) => o.arpq[k].res = "reply"
+  \A k \in DOMAIN o.arpq :
+     /\ (o.arpq[k].res = "reply") <=> (o.arpq[k].dst \in {"self", "bcast"} /\ SpecHolds(ann, o.arpq[k].ip, o.arpq[k].intf))
+     /\ Replied(o.arpq[k].res) => o.arpq[k].res = "reply"
 (* ... a neighbor solicitation through ndpResponder.processRequest          *)
 C13_NdpAnswerIff(o) ==
   \A k \in DOMAIN o.ndpq : /\ (o.ndpq[k].res = "reply") <=> SpecHolds(ann, o.ndpq[k].ip, o.ndpq[k].intf)
@@ -102,7 +106,7 @@ C13_ArpFilter(o) ==
 C13_NdpFilter(o) ==
   (o.act.op = "Ndp" /\ o.res # "absent") =>
      LET holds == SpecHolds(ann, o.act.target, o.act.intf) IN
-     CASE o.act.kind = "ns" -> /\ (o.res = "reply") <=> holds
+     CASE o.act.kind \in {"ns", "ns2"} -> /\ (o.res = "reply") <=> holds
                                /\ Replied(o.res) => o.res = "reply"
        [] o.act.kind = "nsNoLL" -> Replied(o.res) => (holds /\ o.res = "reply")
        [] OTHER -> ~Replied(o.res)
@@ -125,9 +129,9 @@ D_Ips(o) == \A s \in DOMAIN o.ips : AdvSeq(o.ips[s]) = st.ips[s]
 D_Groups(o) == o.ndp => \A r \in RespN(o), g \in DOMAIN st.groups : ObsGrp(o, r, g) = st.groups[g]
 D_Reason(o) ==
   /\ \A k \in DOMAIN o.q : o.q[k].res = QueryRes(st, o.q[k].ip, o.q[k].intf)
-  /\ \A k \in DOMAIN o.arpq : o.arpq[k].res = ArpRes(st, "request", "self", o.arpq[k].ip, o.arpq[k].intf)
+  /\ \A k \in DOMAIN o.arpq : o.arpq[k].res = ArpRes(st, "request", o.arpq[k].dst, o.arpq[k].tha, o.arpq[k].ip, o.arpq[k].intf)
   /\ \A k \in DOMAIN o.ndpq : o.ndpq[k].res = NdpRes(st, "ns", o.ndpq[k].ip, o.ndpq[k].intf)
-  /\ (o.act.op = "Arp" => o.res = ArpRes(st, o.act.aop, o.act.dst, o.act.target, o.act.intf))
+  /\ (o.act.op = "Arp" => o.res = ArpRes(st, o.act.aop, o.act.dst, o.act.tha, o.act.target, o.act.intf))
   /\ ((o.act.op = "Ndp" /\ o.res # "absent") => o.res = NdpRes(st, o.act.kind, o.act.target, o.act.intf))
 D_Spam(o) == IF o.act.op = "Set" THEN AdvSeq(o.spam) = <<AdvJ(o.act.adv)>> ELSE o.spam = <<>>
 D_Grat(o) ==
@@ -183,7 +187,7 @@ LinOK(e) ==
     [] e.op = "Arp" -> LET should == e.aop = "request" /\ e.dst \in {"self", "bcast"} /\ SpecHolds(ann, e.ip, e.intf)
                        IN ((e.res = "reply") <=> should) /\ (Replied(e.res) => e.res = "reply")
     [] e.op = "Ndp" -> LET holds == SpecHolds(ann, e.ip, e.intf) IN
-                       CASE e.nk = "ns" -> ((e.res = "reply") <=> holds) /\ (Replied(e.res) => e.res = "reply")
+                       CASE e.nk \in {"ns", "ns2"} -> ((e.res = "reply") <=> holds) /\ (Replied(e.res) => e.res = "reply")
                          [] e.nk = "nsNoLL" -> Replied(e.res) => (holds /\ e.res = "reply")
                          [] OTHER -> ~Replied(e.res)
     [] e.op \in {"Set", "Del"} -> e.res = "ok"
